@@ -42,8 +42,45 @@ def isTeardown (line : String) : Bool :=
   | ["teardown", n] => match n.toNat? with | some k => 1 ≤ k && k ≤ 64 | none => false
   | _ => false
 
+def parseREv (nreg : Nat) (t : String) : Option C17.REv :=
+  if t = "r" then some .reg else if t = "t" then some .tick else
+  match t.toList with
+  | 'c' :: rest =>
+    if rest.isEmpty || !rest.all Char.isDigit then none else
+    match (String.ofList rest).toNat? with
+    | some i => if i < nreg && i < 65536 then some (.cancel i) else none
+    | none => none
+  | _ => none
+
+def parseREvs : Nat → List String → Option (List C17.REv)
+  | _, [] => some []
+  | nreg, t :: ts => do
+    let e ← parseREv nreg t
+    let rest ← parseREvs (if e == .reg then nreg + 1 else nreg) ts
+    pure (e :: rest)
+
+def parseReg (line : String) : Option (List C17.REv) :=
+  match splitWs line with
+  | ["reg", evs] => do
+    let es ← parseREvs 0 (splitList evs)
+    if C17.regCount es ≤ 12 && es.length ≤ 80 then pure es else none
+  | _ => none
+
+def showTicks (l : List Nat) : String := if l.isEmpty then "-" else ".".intercalate (l.map toString)
+
+def showReg (obs : List (List Nat)) : String :=
+  if obs.isEmpty then "-" else "|".intercalate (obs.zipIdx.map fun (o, i) => s!"{i}:{showTicks o}")
+
+def parseRegObs (s : String) : Option (List (List Nat)) :=
+  if s = "-" then some [] else
+  (s.splitOn "|").mapM fun h =>
+    match h.splitOn ":" with
+    | [_, ts] => if ts = "-" then some [] else (ts.splitOn ".").mapM String.toNat?
+    | _ => none
+
 def model (line : String) : String :=
   if isTeardown line then "teardown done" else
+  if let some es := parseReg line then showReg (C17.modelReg es) else
   match parseOp line with
   | some (st, bursts, post) => showObs (C17.modelObs st bursts post)
   | none => "bad-op"
@@ -74,6 +111,19 @@ def parseObs (obs : String) : Option C17.Obs :=
 def monitor (op obs : String) : String :=
   if isTeardown op then
     (if obs = "teardown done" then "ok" else "FAIL data-race-on-ticker-teardown") else
+  if let some es := parseReg op then
+    (match splitWs obs with
+     | main :: flags =>
+       match parseRegObs main with
+       | some o =>
+         if C17.holdsReg es o (!flags.isEmpty) then "ok"
+         else if o.length == C17.regCount es &&
+             (o.zipIdx).any (fun (x, i) => (C17.windowOf i es 0 0 false).any (fun t => !x.contains t))
+           then "FAIL live-handler-lost-a-tick"
+         else if !flags.isEmpty then "FAIL tick-lost-or-stalled"
+         else "FAIL handler-invoked-outside-its-lifetime"
+       | none => "FAIL unparsable-observation"
+     | [] => "FAIL unparsable-observation") else
   match parseOp op with
   | none => if obs = "bad-op" then "ok" else "FAIL bad-op"
   | some (st, bursts, post) =>
